@@ -27,6 +27,8 @@ def gen_case(seed: int, tier: str, index: int) -> Dict[str, Any]:
     T = max(tables["active"]["PROTOCOL_TIMEOUT_IN_SECONDS"], tables["idle"]["PROTOCOL_TIMEOUT_IN_SECONDS"])
     net: Dict[str, Any] = {"lat_min": 0.001, "lat_max": 0.004}
     loop_cfg: Dict[str, Any] = {"cost_small_p": 0.1, "cost_small_max": 0.002}
+    if rng.random() < 0.25:
+        loop_cfg.update(wall_jump_p=0.003, wall_jump_max=rng.choice([5.0, 3600.0, 86400.0]))      # the wall clock steps; monotonic time does not
     dur = rng.choice([40, 80, 150]) if tier == "quick" else rng.choice([60, 150, 400])
     silent: List[Any] = []
     if profile == "replyloss":
